@@ -9,8 +9,10 @@ def ip(n): return '%d.%d.%d.%d' % (n >> 24, n >> 16 & 255, n >> 8 & 255, n & 255
 def kvs(r): return dict(x.split('=', 1) for x in r.split(' ')[1:])
 
 
+SWEEP = []      # when non-empty: payload lengths are taken from here in order (length sweeps)
+
 def payload(r, sizes=None):
-    n = r.choice(sizes or [0, 0, 1, 2, 3, 7, 8, 9, 31, 32, 33, 255, 256, 1471, 1472, 1473])
+    n = SWEEP.pop(0) if SWEEP else r.choice(sizes or [0, 0, 1, 2, 3, 7, 8, 9, 31, 32, 33, 255, 256, 1471, 1472, 1473])
     k = r.below(5)
     if k == 0: b = bytes(n)
     elif k == 1: b = b'\xff' * n
@@ -70,6 +72,14 @@ class Scen:
             # C11 says it makes no difference: mandatory parameters passed by name (in either order) instead of by position
             from .gen import Lib, name_mandatory
             src = name_mandatory(src, Lib(), self.r)
+        elif self.r.chance(1, 4):
+            # C14 says it makes no difference: literal arguments bound by a let before the statement and passed by name
+            from .gen import hoist_literals
+            src = hoist_literals(src, self.r)
+        if self.r.chance(1, 4):
+            # C17 says it makes no difference: integer arguments in other spellings (hex in either case, zero padding)
+            from .gen import respell_ints
+            src = respell_ints(src, self.r)
         return src
 
     # ---- builders; each appends statements and expectations
@@ -235,6 +245,13 @@ def build(r, raw, kinds=None, quick=True):
     elif k == 'icmp': s.icmp(2 + r.below(5))
     elif k == 'datagram': s.datagram(); s.datagram()
     elif k == 'frag': s.frag(big=r.choice([8192, 8200, 16385, 65000]) if r.chance(1, 5) else None)
+    elif k in ('icmp-sweep', 'udp-sweep', 'tcp-sweep'):
+        # every payload length 0..95 once on one flow (a code path specialised for ONE message length is otherwise hit only by luck)
+        SWEEP.extend(range(0, 96))
+        if k == 'icmp-sweep': s.icmp(96)
+        elif k == 'udp-sweep': s.udp(96)
+        else: s.tcp(96)
+        del SWEEP[:]
     elif k == 'icmp-long': s.icmp(150)          # long histories: a wide sample of checksum values per segment kind
     elif k == 'udp-long': s.udp(100)
     elif k == 'tcp-long': s.tcp(80)
